@@ -4,6 +4,13 @@ use std::collections::BTreeMap;
 use crate::{analysis::Violation, scenario::Scenario, world::RunOutput};
 
 pub mod c01;
+pub mod c02;
+pub mod c03;
+pub mod c08;
+pub mod c11;
+pub mod c14;
+pub mod c15;
+pub mod c16;
 
 #[derive(Default, Debug)]
 pub struct OracleResult {
